@@ -18,11 +18,11 @@ ASSUMPTIONS = ["for Parameter-valued arguments only unambiguous cases are judged
                "not judged for acceptance (it may hold an integral value) but a rejection must still be a JaqalError"]
 TIERS = {"quick": {"shards": 8, "budget_s": 40}, "thorough": {"shards": 16, "budget_s": 240}}
 REQUIRE = {"calls-on-a-definition-used-before": 20000, "definitions-used-before-variants-were-derived": 20, "calls-judged": 20000, "accepted": 2000, "rejected": 5000, "keyword-vs-positional": 5000, "idle-gates-checked": 20,
-           "stretched-gates-checked": 15, "stretch-factors-sampled": 100}
+           "stretched-gates-checked": 15, "stretched_gates-calls-with-update": 6, "stretch-factors-sampled": 100}
 
 KINDS = ["QUBIT", "REGISTER", "INT", "FLOAT", "NONE"]
 VALUE_CLASSES = ["qubit", "register", "int", "intfloat", "float", "constI", "constFint", "constF", "pQ", "pR", "pI", "pF", "pN",
-                 "inf", "nan", "hugefloat", "constFinf", "npint", "npfloat", "npintfloat"]
+                 "inf", "nan", "hugefloat", "constFinf", "npint", "npfloat", "npintfloat", "zero", "zerofloat", "none"]
 
 
 def make_values():
@@ -37,6 +37,8 @@ def make_values():
         # non-finite floats are no integers; a huge finite float is integral
         "inf": float("-inf"), "nan": float("nan"), "hugefloat": 1e300, "constFinf": Constant("cinf", float("inf")),
         # numbers as numpy delivers them: the same integers and floats
+        # values that are false in a truth test (a call must not mistake them for "no argument given")
+        "zero": 0, "zerofloat": 0.0, "none": None,
         "npint": __import__("numpy").int64(3), "npfloat": __import__("numpy").float64(0.25), "npintfloat": __import__("numpy").float32(2.0),
     }
 
@@ -45,6 +47,8 @@ def fits(kind, vc):
     """True / False / None (not judged) per the property's kind table."""
     if kind == "NONE":
         return True
+    if vc == "none":
+        return None  # None for a typed parameter: the statement does not say
     if kind == "QUBIT":
         return vc in ("qubit", "pQ", "pN")
     if kind == "REGISTER":
@@ -52,11 +56,11 @@ def fits(kind, vc):
     if kind == "INT":
         if vc == "pF":
             return None
-        return vc in ("int", "intfloat", "hugefloat", "constI", "constFint", "pI", "pN", "npint", "npintfloat")
+        return vc in ("int", "intfloat", "hugefloat", "constI", "constFint", "pI", "pN", "npint", "npintfloat", "zero", "zerofloat")
     if kind == "FLOAT":
         if vc in ("inf", "nan", "constFinf"):
             return None  # floats, but not finite numbers: the statement does not say
-        return vc in ("int", "intfloat", "hugefloat", "float", "constI", "constFint", "constF", "pI", "pF", "pN", "npint", "npfloat", "npintfloat")
+        return vc in ("int", "intfloat", "hugefloat", "float", "constI", "constFint", "constF", "pI", "pF", "pN", "npint", "npfloat", "npintfloat", "zero", "zerofloat")
     raise ValueError(kind)
 
 
@@ -243,6 +247,9 @@ def idle_effect(out, rng):
     return fails, 1
 
 
+UPDATE_CALLS = [0]
+
+
 def judge_stretched(suffix, with_idle, order_seed, rng):
     import random
     from jaqalpaq.core.stretch import stretched_gates
@@ -256,10 +263,23 @@ def judge_stretched(suffix, with_idle, order_seed, rng):
     random.Random(order_seed).shuffle(items)
     if order_seed % 2:
         USED_FIRST[0] += use_all(base)
-    o = lib.outcome(stretched_gates, dict(items), suffix=suffix)
+    given = dict(items)
+    if order_seed % 4 == 1:
+        # "The keys are ignored, and the intrinsic gate names are processed"
+        given = {"key%d" % i: v for i, (_k, v) in enumerate(items)}
+    update = order_seed % 3 == 0
+    before = dict(given)
+    o = lib.outcome(stretched_gates, given, suffix=suffix, update=update) if update else lib.outcome(stretched_gates, given, suffix=suffix)
     if o[0] != "ok":
-        return [("stretched_gates-raised:" + o[1], {"error": o[2], "suffix": suffix, "with_idle": with_idle})], 0, 0
+        return [("stretched_gates-raised:" + o[1], {"error": o[2], "suffix": suffix, "with_idle": with_idle, "update": update})], 0, 0
     out = o[1]
+    if update:
+        # update=True: "return gates after updating with the new stretched gates" -- the dictionary handed in, with what it had
+        UPDATE_CALLS[0] += 1
+        if out is not given or any(out.get(k) is not v for k, v in before.items()):
+            fails.append(("stretched_gates-update-does-not-return-the-updated-input", {"same object": out is given}))
+    elif given != before or list(given) != list(before):
+        fails.append(("stretched_gates-modified-its-input", {"added": sorted(set(map(str, given)) - set(map(str, before)))[:5]}))
     n = nf = 0
     for name, g in base.items():
         if isinstance(g, IdleGateDefinition):
@@ -406,6 +426,7 @@ def shard(ctx):
                 for clause, detail in fails:
                     rec.violation(sig("C18", clause), detail, {"kind": "stretched", "suffix": suffix, "with_idle": with_idle, "order_seed": seed})
     rec.counters["definitions-used-before-variants-were-derived"] = USED_FIRST[0]
+    rec.counters["stretched_gates-calls-with-update"] = UPDATE_CALLS[0]
     monitors.report_contracts(rec)
 
 
